@@ -87,6 +87,9 @@ class Check:
         every path, emits its VCs and discharges them in the same process (z3 API, no text),
         in parallel over the paths."""
         ex = ex or Explorer()
+        only = os.environ.get("VERIF_GROUP")       # development aid: run a single group
+        if only and only not in group:
+            return
         for t in targets:
             self.under_contract(t)
         dbg("enumerate paths", group)
